@@ -113,7 +113,9 @@ async fn explore2(s: &Sys, r: &mut Rng, fail: Option<(&'static str, usize)>, mut
 /// a coordination RPC (kind, from, to) that the explorer does not release while this is set
 static HOLD: Mutex<Option<(&'static str, usize, usize)>> = Mutex::new(None);
 #[derive(Debug, Clone)]
-enum Inject { Cancel(usize), MsgOob(usize), DupSchedule(usize, bool), StrayRun(usize), StrayConsts(usize), StrayValidate(usize) }
+enum Inject { Cancel(usize), MsgOob(usize), DupSchedule(usize, bool), StrayRun(usize), StrayConsts(usize), StrayValidate(usize), RescheduleWith(usize, &'static str) }
+/// the leader of the scenario that is running (stray policies name it, so that a stray schedule at a follower is a follower's schedule)
+static LEADER: AtomicUsize = AtomicUsize::new(0);
 async fn do_inject(s: &Sys, inj: Inject, log: &mut Vec<String>) {
     let id = Uuid::from_u128(7);
     let t = Duration::from_millis(1500);
@@ -123,7 +125,9 @@ async fn do_inject(s: &Sys, inj: Inject, log: &mut Vec<String>) {
             let now: Vec<String> = s.sh.outputs.lock().unwrap().iter().filter(|(q, _)| *q == p).map(|(_, x)| x.clone()).collect();
             format!("{res} at-return={}", now.join("|")) }
         Inject::MsgOob(p) => format!("{:?}", tokio::time::timeout(t, s.handles[p].mpc_msg(MpcMsg { from: 9, data: vec![1, 2, 3] })).await.map(|r| r.map_err(|e| format!("{e:?}")))),
-        Inject::DupSchedule(p, illtyped) => { let n = s.handles.len(); let pol = policy(n, p, 0, true, id, if illtyped { "pub fn main(a: u8) -> u8 { a + true }" } else if n == 2 { P2 } else { P3 }, false);
+        Inject::RescheduleWith(p, prog) => { let n = s.handles.len(); let pol = policy(n, p, LEADER.load(Ordering::SeqCst), true, id, prog, false);
+            format!("{:?}", tokio::time::timeout(t, s.handles[p].schedule(pol)).await.map(|r| r.map_err(|e| format!("{e:?}").chars().take(60).collect::<String>()))) }
+        Inject::DupSchedule(p, illtyped) => { let n = s.handles.len(); let pol = policy(n, p, LEADER.load(Ordering::SeqCst), true, id, if illtyped { "pub fn main(a: u8) -> u8 { a + true }" } else if n == 2 { P2 } else { P3 }, false);
             format!("{:?}", tokio::time::timeout(t, s.handles[p].schedule(pol)).await.map(|r| r.map_err(|e| format!("{e:?}").chars().take(60).collect::<String>()))) }
         Inject::StrayRun(p) => format!("{:?}", tokio::time::timeout(t, s.handles[p].run(RunRequest { computation_id: id })).await.map(|r| r.map_err(|e| format!("{e:?}").chars().take(60).collect::<String>()))),
         Inject::StrayConsts(p) => format!("{:?}", tokio::time::timeout(t, s.handles[p].consts(ConstsRequest { from: 9, computation_id: id, consts: HashMap::new() })).await.map(|r| r.map_err(|e| format!("{e:?}").chars().take(60).collect::<String>()))),
@@ -138,7 +142,7 @@ struct Outcome { obs: Vec<(usize, String, String, String)>, sched: Vec<String>, 
 async fn scenario(n: usize, leader: usize, outs: &[bool], consts: bool, progs: &[&str], leaders: &[usize], conc: usize, r: &mut Rng, fail: Option<(&'static str, usize)>, hook: impl FnMut(usize, u64) -> Option<Inject>) -> Outcome { scenario2(n, leader, outs, consts, progs, leaders, conc, r, fail, hook, |_| None).await }
 async fn scenario2(n: usize, leader: usize, outs: &[bool], consts: bool, progs: &[&str], leaders: &[usize], conc: usize, r: &mut Rng, fail: Option<(&'static str, usize)>, hook: impl FnMut(usize, u64) -> Option<Inject>, fast: impl FnMut(usize) -> Option<(usize, Inject)>) -> Outcome {
     OBS.lock().unwrap().clear(); polytune_server_core::verif::set_observer(Some(Box::new(|id, c, b, a| OBS.lock().unwrap().push((id, c.to_string(), b.to_string(), a.to_string())))));
-    let s = sys(n, conc, true); let id = Uuid::from_u128(7);
+    let s = sys(n, conc, true); let id = Uuid::from_u128(7); LEADER.store(leader, Ordering::SeqCst);
     let mut order: Vec<usize> = (0..n).collect(); for i in (1..n).rev() { let j = r.below(i as u64 + 1) as usize; order.swap(i, j); }
     let mut sched_tasks = vec![];
     for &p in &order { let h = s.handles[p].clone(); let pol = policy(n, p, leaders[p], outs[p], id, progs[p], consts);
@@ -279,6 +283,24 @@ async fn main() {
                 if samples.len() < 2 { samples.push(desc(json!({"inject": format!("{inj:?}"), "at": at, "reply": reply}))); }
             }
             "C15" => {
+                // corpus first: the party that supplies constants is cancelled while its consts call is still in flight; the call fails AFTER the cancel
+                if case < 2 {
+                    let (n, prog, leader) = (2usize, P2C, case % 2); let outs = vec![true; 2]; let victim = 0usize;
+                    *HOLD.lock().unwrap() = Some(("consts", 0, 1)); let mut done = false;
+                    let o = scenario(n, leader, &outs, true, &vec![prog; n], &vec![leader; n], 1, &mut r, Some(("consts", 0)), move |_step, idle| if !done && idle >= 3 { done = true; *HOLD.lock().unwrap() = None; Some(Inject::Cancel(victim)) } else { None }).await; execs += 1;
+                    *HOLD.lock().unwrap() = None;
+                    *dist.entry("mode:cancel-with-consts-call-in-flight".into()).or_default() += 1; distinct.insert(format!("consts-in-flight {leader}"));
+                    let reply = o.log.iter().skip_while(|l| !l.starts_with("inject")).nth(1).cloned().unwrap_or_default(); let ok = reply.contains("Ok(Ok(()))");
+                    let got: Vec<String> = o.outputs.iter().filter(|(q, _)| *q == victim).map(|(_, s)| s.clone()).collect();
+                    let at_return: Vec<String> = reply.split("at-return=").nth(1).map(|x| x.split('|').filter(|y| !y.is_empty()).map(|y| y.to_string()).collect()).unwrap_or_default();
+                    let mut bad = vec![];
+                    if ok && at_return != got { bad.push(format!("when cancel() returned Ok the destination held {at_return:?}, in the end {got:?}: a notification was sent after cancel had returned")); }
+                    if ok && got.len() != 1 { bad.push(format!("destination got {got:?} (want exactly one notification)")); }
+                    if !o.finished[victim] { bad.push("state machine of the cancelled party still running at the end".to_string()); }
+                    if o.permits[victim] != 1 { bad.push(format!("permit not returned: {}", o.permits[victim])); }
+                    if !bad.is_empty() { failures.push(json!({"witness": "C15:cancel-with-consts-in-flight", "failure": bad, "case": json!({"n": n, "leader": leader, "victim": victim, "held_then_failed": "consts 0->1", "reply": reply, "log": o.log})})); }
+                    continue;
+                }
                 let at = r.below(6) as usize; let after_idle = r.below(12); let victim = r.below(n as u64) as usize; let mut done = false;
                 let use_fast = r.bool(); let yields = r.below(40) as usize; let total_steps = 2 * (n - 1) + if consts { n - 1 } else { 0 }; let at_fast = 1 + r.below(total_steps as u64) as usize; let mut done2 = false;
                 let o = scenario2(n, leader, &outs, consts, &vec![prog; n], &vec![leader; n], 1, &mut r, None,
@@ -288,6 +310,11 @@ async fn main() {
                 *dist.entry(format!("cancel_at:{at}")).or_default() += 1; distinct.insert(format!("{:?}", (at, victim, n, leader)));
                 let reply = o.log.iter().skip_while(|l| !l.starts_with("inject")).nth(1).cloned().unwrap_or_default(); let ok = reply.contains("Ok(Ok(()))");
                 let got: Vec<String> = o.outputs.iter().filter(|(q, _)| *q == victim).map(|(_, s)| s.clone()).collect(); let want = expected_prog(n, prog);
+                if reply.contains("Elapsed") { let mut bad = vec![];
+                    // the environment may legitimately hold the cancel up (a withheld RPC); once everything has been released it must have taken effect
+                    if !o.finished[victim] { bad.push("cancel never returned and the state machine is still running at the end of the scenario".to_string()); }
+                    if o.permits[victim] != 1 { bad.push(format!("cancel never returned and the permit is not back: {}", o.permits[victim])); }
+                    if !bad.is_empty() { failures.push(json!({"witness": "C15:cancel-hangs", "failure": bad, "case": desc(json!({"cancel_at": at, "victim": victim, "log": o.log}))})); } }
                 if ok { let mut bad = vec![];
                     if !o.finished[victim] { bad.push("state machine still running after cancel returned Ok".to_string()); }
                     if outs[victim] && !(got == vec!["Cancelled".to_string()] || got == vec![want.clone()]) { bad.push(format!("destination got {got:?} (want exactly one Cancelled or the real result)")); }
@@ -301,6 +328,23 @@ async fn main() {
             "C16" => {
                 // kinds 3 and 4: programs that are DIFFERENT (they compute different functions) but textually as close as possible — a line break that
                 // moves code into a comment, and a difference in the very last token; kinds cycle deterministically first, then seeded
+                // corpus: the mismatching follower schedules first; while it waits for validation a SECOND schedule arrives with the leader's program
+                // (it is refused: the state is not Init); then the leader's validate request is delivered — it must still find the mismatch
+                if case == 5 || case == 6 {
+                    let (n, leader) = (2usize, case % 2); let bad = 1 - leader; let outs = vec![true; 2]; let other = "pub fn main(a: u8, b: u8) -> u8 { a ^ b }";
+                    let mut progs = vec![P2; n]; progs[bad] = other;
+                    *HOLD.lock().unwrap() = Some(("validate", leader, bad)); let mut done = false;
+                    let o = scenario(n, leader, &outs, false, &progs, &vec![leader; n], 1, &mut r, None, move |_step, idle| if !done && idle >= 3 { done = true; *HOLD.lock().unwrap() = None; Some(Inject::RescheduleWith(bad, P2)) } else { None }).await; execs += 1;
+                    *HOLD.lock().unwrap() = None; correspond(&mut m, &o, None, &mut disagreements, &mut steps);
+                    *dist.entry("mismatch:program+refused-reschedule".into()).or_default() += 1; distinct.insert(format!("reschedule {leader}"));
+                    let mut bad_v = vec![];
+                    if o.sched[bad] == "Ok" { bad_v.push("mismatching follower's schedule returned Ok".to_string()); }
+                    if o.sched[leader] == "Ok" { bad_v.push("leader's schedule returned Ok".to_string()); }
+                    if o.outputs.iter().any(|(_, s)| s.starts_with("Ok(")) { bad_v.push(format!("a successful result was delivered: {:?}", o.outputs)); }
+                    if o.msgs != 0 { bad_v.push(format!("{} MPC messages exchanged", o.msgs)); }
+                    if !bad_v.is_empty() { failures.push(json!({"witness": "C16:mismatch-after-refused-reschedule", "failure": bad_v, "case": json!({"n": n, "leader": leader, "bad_follower": bad, "sched": o.sched, "log": o.log})})); }
+                    continue;
+                }
                 let bad_follower = (leader + 1 + r.below(n as u64 - 1) as usize) % n; let kind = if case < 5 { case as u64 } else { r.below(5) };
                 let mut progs = vec![prog; n]; let mut leaders = vec![leader; n]; let other = if n == 2 { "pub fn main(a: u8, b: u8) -> u8 { a ^ b }" } else { "pub fn main(a: u8, b: u8, c: u8) -> u8 { a ^ b ^ c }" };
                 let what = match kind { 0 => { progs[bad_follower] = other; "program" } 1 => { leaders[bad_follower] = (0..n).find(|p| *p != leader && *p != bad_follower).unwrap_or(leader); if leaders[bad_follower] == leader { progs[bad_follower] = other; "program" } else { "leader" } }
